@@ -268,6 +268,21 @@ Proof.
 Qed.
 Print Assumptions C09_op2_mismatch_gt1.
 
+(* an unsupported right operand raises (fix 5b6b922: _op2 used to fall off the end and return None); whenever _op2 returns,
+   it returns data *)
+Theorem C09_op2_foreign : forall A B C (op : A -> B -> C) l, op2 op l (@Foreign B) = Err ValueError.
+Proof. reflexivity. Qed.
+Print Assumptions C09_op2_foreign.
+
+Theorem C09_op2_never_none : forall A B C (op : A -> B -> C) l r v, op2 op l r = Ok v -> to_list v <> None.
+Proof.
+  intros A B C op l r v. unfold op2. destruct r as [r|s|]; [| |discriminate].
+  - pose proof (C09_op2_binop_agree A B C op true l r) as Ag. unfold op2 in Ag. intros H. rewrite H in Ag.
+    destruct (binop op true l (Seq r)); [apply Ag|contradiction].
+  - split_list l; simpl; intros H; injection H as <-; discriminate.
+Qed.
+Print Assumptions C09_op2_never_none.
+
 (* ================================================================= unop and the accessor shapes *)
 Theorem C09_unop_map : forall A C (f : A -> C) l,
   unop f l = map f l /\ length (unop f l) = length l /\ forall i, nth_error (unop f l) i = option_map f (nth_error l i).
